@@ -19,7 +19,14 @@ queries to the public `viscosity_of_water` / `density_of_water` in one process, 
 molarity, pressure) repeat while the third changes, scalar and array temperatures mixed, invalid queries in between.
 `setdrag` evaluates one model object before and after `_set_drag(gamma)` (what `calibrate_force(..., drag=…)` does) and
 then through further wrapper steps.  `stimson2` asks the Stimson-Jeffery factors of two beads of DIFFERENT radii, with
-both labellings.
+both labellings.  `fixeddiode` gives the model the filter `calibrate_force(..., fixed_diode=…, fixed_alpha=…)` installs
+(`FixedDiodeModel`: either diode parameter, or both, fixed — at the ends of the allowed ranges as well, a relaxation
+factor of 0 or 1 is a value like any other) and calls that ONE object several times with different free parameters,
+itself and behind wrapper steps.  `couplevec` hands `coupling_correction_2d` ARRAYS of bead pairs (the documented
+"array_like or float": the same geometry in every frame, sweeps of separations, mixed directions; numpy arrays, lists,
+floats) and compares every entry with the pair evaluated on its own and with the decomposition into the two
+one-dimensional factors at that pair's own distance (the model computes the decomposition, the Stimson-Jeffery factor
+is handed to it).
 """
 import cmath
 import math
@@ -34,6 +41,8 @@ THEOREMS = [
     "Verif.C20.lorentzian_pos",
     "Verif.C20.lorentzian_equipartition",
     "Verif.C20.g_diode_bounds",
+    "Verif.C20.fixed_diode_is_g_diode",
+    "Verif.C20.fixed_diode_bounds",
     "Verif.C20.alias_is_sum_of_shifts",
     "Verif.C20.alias_pos",
     "Verif.C20.alias_ge_unaliased",
@@ -56,6 +65,10 @@ THEOREMS = [
     "Verif.C20.brenner_tends_to_one",
     "Verif.C20.goldman_in_unit_interval",
     "Verif.C20.goldman_tends_to_one",
+    "Verif.C20.coupling_2d_decomposition",
+    "Verif.C20.coupling_2d_in_unit_interval",
+    "Verif.C20.coupling_2d_between_the_1d_factors",
+    "Verif.C20.coupling_2d_vectorised_is_pairwise",
     "Verif.C20.viscosity_water_antitone",
     "Verif.C20.viscosity_water_pos",
     "Verif.C20.viscosity_units",
@@ -76,12 +89,17 @@ RULE = (
     "the third changes, in both orders, scalar and array temperatures, with invalid queries in between; one model object "
     "evaluated before and after _set_drag(k * 3 pi eta d), k = 1 or 0.2-5, then through 0-2 wrapper steps (every option "
     "combination, hydrodynamic models near a surface included); Stimson-Jeffery factors for unequal radii 0.1-4 um (ratio up to "
-    "40) with both labellings, gap >= 2e-4 of the summed radii (random: mostly >= 2e-3) to 1e4 summed radii + a "
+    "40) with both labellings, gap >= 2e-4 of the summed radii (random: mostly >= 2e-3) to 1e4 summed radii; the model with a fixed "
+    "diode filter: f_diode fixed / alpha fixed / both, alpha fixed at 0, 1 (the inclusive ends), 1e-12..1, f_diode at 1 Hz..40 kHz, one "
+    "object called 1-4 times with different free parameters (the first call repeated at the end), bare and behind 0-2 wrapper steps, "
+    "Lorentzian / hydrodynamic / axial models; coupling_correction_2d for 1-8 bead pairs in one call (same geometry repeated, sorted "
+    "sweep of separations, mixed directions and separations 2.005-1e4 radii, axis-aligned directions) as numpy arrays, lists or floats, "
+    "every option combination + a "
     "malformed stream (PassiveCalibrationModel arguments, temperatures/pressures/molalities outside the validity ranges, "
-    "overlapping beads) whose only oracle is 'the documented error, never data'. Non-trivial: the case evaluates a formula "
+    "overlapping beads (alone and as one pair of an array), fixed relaxation factors outside [0, 1], fixed diode frequencies <= 0) whose only oracle is 'the documented error, never data'. Non-trivial: the case evaluates a formula "
     "inside its validity domain (not an error case) and, for wall/coupling corrections, at R/h or R/d >= 1e-3 (where the "
     "correction differs from 1 by more than rounding), for spectra at f > 0; a chain has at least one step, a query "
-    "sequence at least two valid queries."
+    "sequence at least two valid queries, a fixed-diode case at least one fixed parameter, an array of bead pairs at least two pairs."
 )
 TRUSTED = [
     "RealLike formulas are proved at R and executed at Float; rounding is not modelled, the comparison tolerance "
@@ -98,7 +116,9 @@ ASSUMPTIONS = [
     "public water functions (waterseq): molarity <= 5 M for T <= 90 C and <= 4.7 M above (molality stays below ~5.8 mol/kg, away from the validity edge), viscosity_of_water(T, 0.0) without a pressure is not generated (0.0 is falsy: the code answers with the Huber formula)",
     "after _set_drag the oracle accepts the published spectrum with either bulk drag coefficient (the one the model was built with, which is what the code and the model keep, or the transferred one): the property does not say which; the distance to the surface, radius and densities must be the model's",
     "Stimson-Jeffery factors for unequal radii: judged by the oracle only (bounds, label-swap symmetry to 1e-8, agreement with the method-of-reflections expansion 1 - 3/2 b/d + 9/4 ab/d^2 to 5 (max(a,b)/d)^3 for max(a,b)/d <= 0.2, the equal-sphere series when the radii coincide)",
-    "Stimson-Jeffery series, 2-D coupling, equipartition of the hydrodynamic spectrum, monotonicity of the salt models: explored by the oracle only (no theorem)",
+    "Stimson-Jeffery series, equipartition of the hydrodynamic spectrum, monotonicity of the salt models: explored by the oracle only (no theorem)",
+    "2-D coupling: the theorems are about the decomposition GIVEN the two one-dimensional factors (bounds and limit of the 2-D factor follow from those of the Goldman factor, a theorem, and of the Stimson-Jeffery factor, explored); the model is handed the implementation's own Stimson-Jeffery factor at each pair's distance; arrays of bead pairs keep separations >= 2.0045 radii (closer: the scalar `couple` cases; the series needs ~1/sqrt(gap) summands per pair and call), dx and dy have the same length (a float against an array is not documented to broadcast)",
+    "fixed diode filter: installed the way calibrate_force does (model._filter = FixedDiodeModel(fixed_diode, fixed_alpha)) on models built with fast_sensor=False, BEFORE wrappers are derived; every call passes exactly the free parameters (f_diode first)",
 ]
 
 PI = math.pi
@@ -351,6 +371,51 @@ def impl(case):
                 cur = cur._motion_blur(st[1]) if st[0] == "B" else cur._alias_model(st[1], st[2])
                 out.append(scalar(cur(f, *args)))
             return [efl(out + [cur.drag_coeff, cur._drag])]
+        if k == "fixeddiode":
+            model = lk.PassiveCalibrationModel(**c["cfg"])
+            # what calibrate_force(..., fixed_diode=…, fixed_alpha=…) does to the model it is about to fit
+            model._filter = cm.FixedDiodeModel(c["fix"][0], c["fix"][1])
+            cur = model
+            for st in c["steps"]:
+                cur = cur._motion_blur(st[1]) if st[0] == "B" else cur._alias_model(st[1], st[2])
+            f = np.array([c["f"]])
+            out = []
+            for pair in c["calls"]:  # the SAME objects, one call after the other (a fit calls the model hundreds of times)
+                free = [v for v, fixed in zip(pair, c["fix"]) if fixed is None]
+                out.append(scalar(model._filter(f, *free)))
+                out.append(scalar(model(f, c["fc"], c["D"], *free)))
+                out.append(scalar(cur(f, c["fc"], c["D"], *free)))
+            return [efl(out)]
+        if k == "couplevec":
+            case.pop("_st", None)
+            R, pairs = c["R"], c["pairs"]
+            dx, dy = [p[0] for p in pairs], [p[1] for p in pairs]
+            if c["form"] == "scalar":
+                args = (dx[0], dy[0])
+            elif c["form"] == "list":
+                args = (dx, dy)
+            else:
+                args = (np.array(dx), np.array(dy))
+            vec = np.asarray(lk.coupling_correction_2d(*args, 2 * R, c["is_y"], c["rot"]), dtype=float)
+            if vec.size != len(pairs) or vec.ndim > 1:
+                return [f"shape-mismatch:{vec.shape}"] * _nops(case)
+            vec = vec.reshape(-1)
+            # the same pairs one at a time, and the two one-dimensional factors at each pair's own distance
+            # (a geometry that occurs several times in the arrays is asked once here: the Stimson-Jeffery series is slow)
+            memo1, memo2 = {}, {}
+            single, st = [], []
+            for x, y in pairs:
+                if (x, y) not in memo1:
+                    memo1[(x, y)] = scalar(lk.coupling_correction_2d(x, y, 2 * R, c["is_y"], c["rot"]))
+                single.append(memo1[(x, y)])
+                d = math.sqrt(x * x + y * y)
+                if d not in memo2:
+                    memo2[d] = float(dm.coupling_correction_factor_stimson(R, R, d)[0])
+                st.append(memo2[d])
+            dist = [math.sqrt(x * x + y * y) for x, y in pairs]
+            go = [float(dm.coupling_correction_factor_goldmann(R, d, c["rot"])) for d in dist]
+            case["_st"] = st  # the model takes the Stimson-Jeffery factor (outside the model) as given
+            return [efl(vec), efl(single), efl(st)] + [ef(g) for g in go]
         if k == "chain":
             model = lk.PassiveCalibrationModel(**c["cfg"])
             f = np.array([c["f"]])
@@ -467,6 +532,22 @@ def ops(case):
         a = c
         tail = f"{cfg_tokens(c['cfg'])} {E(a['f'])} {E(a['fc'])} {E(a['D'])} {E(a['fd'])} {E(a['alpha'])} {E(a['gamma'])}"
         return [f"c20.passivesetdrag {tail} {step_tokens(c['steps'])}".rstrip()]
+    if k == "fixeddiode":
+        fds = ",".join(E(p[0]) for p in c["calls"])
+        als = ",".join(E(p[1]) for p in c["calls"])
+        return [f"c20.passivefixed {cfg_tokens(c['cfg'])} {eo(c['fix'][0])} {eo(c['fix'][1])} {E(c['f'])} {E(c['fc'])} {E(c['D'])} "
+                f"[{fds}] [{als}] {step_tokens(c['steps'])}".rstrip()]
+    if k == "couplevec":
+        pairs = c["pairs"]
+        st = c.get("_st")
+        if st is not None and len(st) == len(pairs) and not any(math.isnan(x) or math.isinf(x) for x in st):
+            line = (f"c20.couple2d {eb(c['is_y'])} {eb(c['rot'])} {E(c['R'])} [{','.join(E(p[0]) for p in pairs)}] "
+                    f"[{','.join(E(p[1]) for p in pairs)}] [{','.join(E(x) for x in st)}]")
+        else:
+            line = "c20.outside couple2d"
+        if c.get("expect") is not None:  # overlapping beads: the model's perpendicular factor knows no validity limit
+            return ["c20.outside couple2d"] * (3 + len(pairs))
+        return [line, line, "c20.outside stimson"] + [f"c20.goldman {E(c['R'])} {E(math.sqrt(p[0] * p[0] + p[1] * p[1]))} {eb(c['rot'])}" for p in pairs]
     if k == "chain":
         a = c
         tail = f"{cfg_tokens(c['cfg'])} {E(a['f'])} {E(a['fc'])} {E(a['D'])} {E(a['fd'])} {E(a['alpha'])}"
@@ -787,8 +868,10 @@ def oracle(case, ia):
         return None
     if k == "waterseq":
         return _oracle_waterseq(c, vals, ia)
-    if k in ("passive", "passiveblur", "passivealias", "chain", "setdrag"):
+    if k in ("passive", "passiveblur", "passivealias", "chain", "setdrag", "fixeddiode"):
         want = o_passive_error(c["cfg"])
+        if want is None and k == "fixeddiode":
+            want = o_fixed_diode_error(c["fix"])
         if want is not None:
             if all(v == want for v in vals):
                 return None
@@ -1026,6 +1109,10 @@ def oracle(case, ia):
         if R1 == R2 and not abs(a1 - o_stimson_equal(R1, d)) <= 2e-6:
             return f"stimson-equation: got {a1!r}, Stimson-Jeffery equal-sphere series {o_stimson_equal(R1, d)!r}"
         return None
+    if k == "fixeddiode":
+        return _oracle_fixeddiode(c, vals[0])
+    if k == "couplevec":
+        return _oracle_couplevec(c, vals)
     if k == "setdrag":
         full, eta, gamma0 = o_passive_psd(c)
         carried, _, _ = o_passive_psd(c, gamma0=c["gamma"])
@@ -1131,6 +1218,89 @@ def oracle(case, ia):
     return f"harness-bug: no oracle for {k}"
 
 
+def o_fixed_diode_error(fix):
+    """documented argument checks of the fixed diode filter: 'Diode relaxation factor should be between 0 and 1
+    (inclusive)', 'Fixed diode frequency must be larger than zero'"""
+    fd, a = fix
+    if a is not None and not 0 <= a <= 1:
+        return "ValueError"
+    if fd is not None and not fd > 0:
+        return "ValueError"
+    return None
+
+
+def _oracle_fixeddiode(c, got):
+    """every call of the one model object: the published diode filter at the FIXED values (whatever they are: 0 and 1
+    are allowed relaxation factors) and this call's free ones, the physical spectrum times it, the wrapper equations
+    around that — whatever the object was called with before"""
+    f, steps, calls = c["f"], c["steps"], c["calls"]
+    if len(got) != 3 * len(calls):
+        return f"fixed-diode: {len(got)} values for {3 * len(calls)} observables"
+    for j, pair in enumerate(calls):
+        fd, a = (v if fixed is None else fixed for v, fixed in zip(pair, c["fix"]))
+        g, p, w = got[3 * j:3 * j + 3]
+        free = [v for v, fixed in zip(pair, c["fix"]) if fixed is None]
+        what = f"call {j}: FixedDiodeModel(diode_frequency={c['fix'][0]!r}, diode_alpha={c['fix'][1]!r}) with free parameters {free!r} at f={f!r}"
+        e_g = o_diode(f, fd, a)
+        if not _rel(g, e_g, 1e-9):
+            return f"diode-equation: {what}: filter = {g!r}, alpha^2 + (1 - alpha^2)/(1 + (f/f_diode)^2) at f_diode={fd!r}, alpha={a!r} is {e_g!r}"
+        resolvable = (1 - a * a) / (1 + (f / fd) ** 2) > 1e-12 * a * a  # else alpha^2 + the rest rounds to alpha^2
+        if not (a * a <= g <= 1.0) or (resolvable and not a * a < g):
+            return f"diode-bounds: {what}: alpha^2 < g <= 1 violated: g={g!r} alpha={a!r}"
+        full, _, _ = o_passive_psd(dict(c, fd=fd, alpha=a))
+        if not _rel(p, full(f), 1e-8):
+            return f"passive-model-spectrum: {what}: model = {p!r}, physical spectrum x diode filter = {full(f)!r}"
+        if not p > 0:
+            return f"passive-model-positive: {what}: {p!r}"
+        cur = env = full
+        for st in steps:
+            cur = o_wrap(st, cur)
+            env = o_wrap(st, env) if st[0] == "A" else env
+        if not close(w, cur(f), 1e-8, 1e-14 * abs(env(f))):
+            return (f"wrapper-chain-equation: {what}: model->{'->'.join(st[0] for st in steps)} = {w!r}, published equations "
+                    f"(P_blur = P sinc^2(fT), P_alias = sum of shifts, composed in this order) = {cur(f)!r}")
+        if not w >= 0:
+            return f"wrapper-chain-positive: {what}: {w!r}"
+    return None
+
+
+def _oracle_couplevec(c, vals):
+    """coupling_correction_2d with array arguments: every entry is the factor of ITS bead pair —
+    c_aligned cos^2 + c_perpendicular sin^2 with the one-dimensional factors at that pair's own distance —
+    lies in (0, 1) and tends to one with that pair's separation, whatever else is in the arrays"""
+    R, pairs = c["R"], c["pairs"]
+    vec, single, st = vals[0], vals[1], vals[2]
+    go = vals[3:]
+    n = len(pairs)
+    if not (len(vec) == len(single) == len(st) == len(go) == n):
+        return f"coupling-2d-shape: {len(vec)} factors for {n} bead pairs"
+    for i, (dx, dy) in enumerate(pairs):
+        d = math.sqrt(dx * dx + dy * dy)
+        x = Fraction(R) / Fraction(d)
+        xf = float(x)
+        e = float(o_goldman(x, c["rot"]))
+        if not _rel(go[i], e, 1e-12):
+            return f"goldman-equation(rot={c['rot']}): got {go[i]!r}, exact {e!r}"
+        if not (0 < go[i] < 1 and 0 < st[i] < 1):
+            return f"coupling-in-unit-interval: goldman = {go[i]!r}, stimson = {st[i]!r} at R/d = {xf!r}"
+        ref = o_stimson_equal(R, d)
+        if not abs(st[i] - ref) <= 2e-6:
+            return f"stimson-equation: got {st[i]!r}, Stimson-Jeffery equal-sphere series {ref!r}"
+        dist2 = dx * dx + dy * dy
+        ca, cp = (dy * dy / dist2, dx * dx / dist2) if c["is_y"] else (dx * dx / dist2, dy * dy / dist2)
+        e = ca * st[i] + cp * go[i]
+        for name, v in ((f"entry {i} of the call with {n} bead pairs ({c['form']})", vec[i]), ("the pair on its own", single[i])):
+            what = f"coupling_correction_2d, pair (dx={dx!r}, dy={dy!r}), diameter {2 * R!r}, {name}"
+            if not _rel(v, e, 1e-9):
+                return (f"coupling-2d-decomposition: {what} = {v!r}; cos^2*aligned + sin^2*perpendicular at this pair's "
+                        f"distance = {e!r}")
+            if not 0 < v < 1:
+                return f"coupling-in-unit-interval: {what} = {v!r}"
+            if xf <= 0.05 and not abs(v - 1) <= 1.6 * xf:
+                return f"coupling-tends-to-one: {what}: factor - 1 = {v - 1!r} at R/d = {xf!r}"
+    return None
+
+
 def _oracle_waterseq(c, vals, ia):
     seen = {}  # (fn, T, effective p) -> [(molarity, value)] over the salt-model answers of this sequence
     for qi, (q, got) in enumerate(zip(c["queries"], vals)):
@@ -1180,6 +1350,10 @@ def nontrivial(case, ia):
         return case["R1"] != case["R2"] and max(case["R1"], case["R2"]) / case["d"] >= 1e-3
     if k == "setdrag":
         return case["f"] > 0
+    if k == "fixeddiode":
+        return case["f"] > 0 and any(v is not None for v in case["fix"])
+    if k == "couplevec":
+        return len(case["pairs"]) >= 2 and any(case["R"] / math.hypot(*p) >= 1e-3 for p in case["pairs"])
     if k == "wall":
         return case["R"] / case["h"] >= 1e-3
     if k == "couple":
@@ -1214,12 +1388,21 @@ def shrink(case):
                 if key == "m" and "m2" in c:
                     c["m2"] = r + (case["m2"] - case["m"])
                 yield c
-    for key in ("steps", "queries"):  # shorten the sequence
-        if key in case and len(case[key]) > (0 if case["op"] == "setdrag" else 1):
+    for key in ("steps", "queries", "calls", "pairs"):  # shorten the sequence
+        if key in case and len(case[key]) > (0 if key == "steps" and case["op"] in ("setdrag", "fixeddiode") else 1):
             for j in range(len(case[key])):
                 c = dict(case)
                 c[key] = case[key][:j] + case[key][j + 1:]
                 yield c
+    for key in ("calls", "pairs"):  # round the numbers inside
+        for j, item in enumerate(case.get(key, [])):
+            for i, v in enumerate(item):
+                r = float(f"{v:.2g}")
+                if r != v and (key == "calls" or r != 0):
+                    c = dict(case)
+                    c[key] = [list(x) for x in case[key]]
+                    c[key][j][i] = r
+                    yield c
     if "queries" in case:  # one temperature per query
         for j, q in enumerate(case["queries"]):
             if len(q["T"]) > 1:
@@ -1304,6 +1487,14 @@ def malformed(rng, count):
         out.append({"stream": "malformed", "op": "visc", "T": T, "T2": T, "expect": "ValueError", "why": why})
     for R1, R2, d, why in [(1.0, 1.0, 1.9, "overlap"), (1.0, 2.0, 2.5, "overlap"), (0.5, 0.5, 0.0, "zero distance")]:
         out.append({"stream": "malformed", "op": "stimsonbad", "R1": R1, "R2": R2, "d": d, "expect": "ValueError", "why": why})
+    for fix, why in [([None, -0.1], "relaxation factor < 0"), ([None, 1.0001], "relaxation factor > 1"), ([14000.0, 2.0], "relaxation factor > 1"),
+                     ([0.0, None], "diode frequency 0"), ([-14000.0, 0.5], "negative diode frequency"), ([0.0, 0.0], "diode frequency 0")]:
+        out.append(fixeddiode_case("malformed", base_cfg(), 1000.0, 500.0, 1.0, fix, [[14000.0, 0.4]], [], expect="ValueError", why=why))
+    out.append(fixeddiode_case("malformed", base_cfg(temperature=95.0), 1000.0, 500.0, 1.0, [None, 0.5], [[14000.0, 0.4]], [], expect="ValueError",
+                               why="model temperature > 90"))
+    for pairs, why in [([[3.0, 0.0], [0.5, 0.5], [4.0, 1.0]], "one overlapping bead pair among valid ones"), ([[0.0, 0.0], [5.0, 0.0]], "zero distance")]:
+        out.append({"stream": "malformed", "op": "couplevec", "R": 0.5, "pairs": pairs, "is_y": False, "rot": True, "form": "array",
+                    "expect": "ValueError", "why": why})
     r = rng.fork("c20-malformed")
     for i in range(count):
         s = r.fork(i)
@@ -1375,6 +1566,17 @@ def corpus():
     near = base_cfg(bead_diameter=1.0, hydrodynamically_correct=True, distance_to_surface=0.8, viscosity=1.002e-3, fast_sensor=True)
     yield setdrag_case("corpus", near, 10.0, 4000.0, 0.5, 1.0, [])
     yield setdrag_case("corpus", near, 3000.0, 4000.0, 0.5, 1.3, [["B", 1e-4], ["A", 78125.0, 3]])
+    # the diode filter with fixed parameters (calibrate_force(..., fixed_diode=…, fixed_alpha=…)): the ends of the allowed range of
+    # the relaxation factor ("between 0 and 1 (inclusive)"), each parameter fixed alone and both together, one object called repeatedly
+    for fix in ([None, 0.0], [None, 1.0], [14000.0, 0.0], [14000.0, 1.0], [1.0, None], [14000.0, None], [None, 0.4], [None, None]):
+        yield fixeddiode_case("corpus", base_cfg(), 3000.0, 1800.0, 0.37, fix, [[14000.0, 0.4], [9000.0, 0.0], [14000.0, 0.4], [30000.0, 1.0]], [])
+    yield fixeddiode_case("corpus", base_cfg(bead_diameter=4.4, hydrodynamically_correct=True, distance_to_surface=5.0), 249.0, 120.0, 0.5,
+                          [None, 0.0], [[200.0, 0.3], [240.0, 0.3]], [["B", 1 / 500.0], ["A", 500.0, 20]])
+    # bead pairs evaluated in one call: the same geometry in every frame, a sweep of separations out to 100 diameters, mixed directions
+    yield couplevec_case("corpus", 0.5, [[3.0, 3.0]] * 5, False, True, "array")
+    yield couplevec_case("corpus", 0.5, [[1.5, 0.0], [3.0, 0.0], [4.0, 3.0], [-6.0, 1.0], [20.0, -5.0], [100.0, 0.0]], False, True, "array")
+    yield couplevec_case("corpus", 2.2, [[0.0, 4.41], [4.41, 0.0], [-30.0, -40.0]], True, False, "list")
+    yield couplevec_case("corpus", 1.0, [[2.5, 1.0]], True, True, "array")
     # two beads of different size, both ways round
     yield {"stream": "corpus", "op": "stimson2", "R1": 0.5, "R2": 2.0, "d": 2.625}
     yield {"stream": "corpus", "op": "stimson2", "R1": 0.1, "R2": 4.0, "d": 4.1 * 1.0002}
@@ -1398,6 +1600,25 @@ def natural_drag(cfg):
 def setdrag_case(stream, cfg, f, fc, D, k, steps, **kw):
     """the model evaluated, given the drag coefficient k * (its own Stokes drag), evaluated again, then wrapped"""
     return passive_case(stream, cfg, f, fc, D, op="setdrag", gamma=float(k * natural_drag(cfg)), steps=steps, **kw)
+
+
+def fixeddiode_case(stream, cfg, f, fc, D, fix, calls, steps, **kw):
+    """the model with FixedDiodeModel(*fix) as its filter (None = free), called once per [f_diode, alpha] of `calls`
+    (only the free ones are passed), itself and behind the wrapper `steps`"""
+    cfg = dict(cfg, fast_sensor=False)  # a fast sensor has no diode to fix
+    c = {"stream": stream, "op": "fixeddiode", "cfg": cfg, "f": float(f), "fc": float(fc), "D": float(D),
+         "fix": [None if v is None else float(v) for v in fix], "calls": [[float(a), float(b)] for a, b in calls], "steps": steps}
+    c.update(kw)
+    return c
+
+
+def couplevec_case(stream, R, pairs, is_y, rot, form, **kw):
+    """coupling_correction_2d(dx, dy, 2R, is_y, rot) for several bead pairs in one call (form: 'array' numpy arrays,
+    'list' Python lists, 'scalar' two floats when there is one pair)"""
+    c = {"stream": stream, "op": "couplevec", "R": float(R), "pairs": [[float(x), float(y)] for x, y in pairs], "is_y": bool(is_y),
+         "rot": bool(rot), "form": form if (len(pairs) == 1 or form != "scalar") else "array"}
+    c.update(kw)
+    return c
 
 
 def water_sequence(stream, queries, **kw):
@@ -1515,6 +1736,39 @@ def grid(tier):
                         steps = ([], [["B", 2e-4]], [["B", 1 / 3000.0], ["A", 3000.0, 6]], [["A", 78125.0, 3]])[(ncfg // 3) % 4]
                         for f in ([3.0, 1200.0] if q else logspace(0.1, 1e5, 7)):
                             yield setdrag_case("grid", cfg, f, 1800.0, 0.37, k_, steps)
+    # the fixed diode filter: which parameter is fixed x the value it is fixed at (range ends included) x model kind x wrappers
+    fixed_models = [base_cfg(bead_diameter=1.07, temperature=24.0),
+                    base_cfg(bead_diameter=4.4, temperature=24.0, hydrodynamically_correct=True, distance_to_surface=4.0, rho_sample=1010.0),
+                    base_cfg(bead_diameter=1.07, viscosity=1.2e-3, distance_to_surface=0.7, axial=True)]
+    step_sets = [[], [["B", 2e-4]], [["B", 1 / 3000.0], ["A", 3000.0, 6]], [["A", 78125.0, 3]]]
+    nfix = 0
+    for a_fix in ([0.0, 0.3, 1.0] if q else [0.0, 1e-9, 0.1, 0.3, 0.5, 0.9, 1.0]):
+        for fd_fix in ([14000.0] if q else [1.0, 500.0, 14000.0, 39062.5]):
+            for fix in ([None, a_fix], [fd_fix, None], [fd_fix, a_fix]):
+                for cfg in fixed_models:
+                    nfix += 1
+                    steps = step_sets[nfix % 4]
+                    slow = any(st[0] == "A" and st[1] < 1e4 for st in steps)
+                    calls = [[9000.0, 0.0], [14000.0, 0.45], [9000.0, 0.0], [20000.0, 1.0]]
+                    calls = calls[nfix % 2:][:3]
+                    for f in ([1200.0 if not slow else 1230.0] if q else ([3.0, 1200.0, 37000.0] if not slow else [3.0, 700.0, 1499.0])):
+                        yield fixeddiode_case("grid", cfg, f, 1800.0 if not slow else 700.0, 0.37, fix, calls, steps)
+    # coupling_correction_2d for arrays of bead pairs: N pairs x direction x rotation x container
+    R = 2.2
+    seps_v = logspace(2.005, 200.0, 7)
+    ncv = 0
+    for n in ([1, 2, 5] if q else [1, 2, 3, 5, 8]):
+        for is_y in (False, True):
+            for rot in (True, False):
+                ncv += 1
+                form = ("array", "list")[ncv % 2]
+                th = (0.0, 0.7, math.pi / 2, 2.5, -1.0)[ncv % 5]
+                # the same geometry in every frame; a sweep of separations along one direction; mixed directions and separations
+                yield couplevec_case("grid", R, [[seps_v[ncv % 7] * R * math.cos(th), seps_v[ncv % 7] * R * math.sin(th)]] * n, is_y, rot, form)
+                yield couplevec_case("grid", R, [[seps_v[(ncv + i) % 7] * R * math.cos(th), seps_v[(ncv + i) % 7] * R * math.sin(th)] for i in range(n)],
+                                     is_y, rot, form)
+                yield couplevec_case("grid", R, [[seps_v[(2 * ncv + 3 * i) % 7] * R * math.cos(th + 0.9 * i), seps_v[(2 * ncv + 3 * i) % 7] * R * math.sin(th + 0.9 * i)]
+                                                 for i in range(n)], is_y, rot, "scalar" if n == 1 else form)
     # Stimson-Jeffery for two beads of different size (and the same pair the other way round)
     sizes = [0.1, 0.5, 2.2, 4.0] if q else [0.1, 0.25, 0.5, 1.0, 2.2, 4.0]
     for R1 in sizes:
@@ -1557,7 +1811,7 @@ def random_cases(tier, rng):
     for i in range(N):
         s = r.fork(i)
         kind = s.choice(["lor", "diode", "blur", "alias", "drivenlor", "drag", "drag", "hydro", "hydro", "wall", "wall", "couple", "visc",
-                         "salt", "passive", "passive", "passiveblur", "passivealias", "hydrolimit", "chain", "chain", "waterseq", "setdrag", "stimson2"]
+                         "salt", "passive", "passive", "passiveblur", "passivealias", "hydrolimit", "chain", "chain", "waterseq", "setdrag", "stimson2", "fixeddiode", "couplevec"]
                         + ([] if q and i % 8 else ["equip"]))
         f = s.choice([s.loguniform(0.1, 1e5)] * 6 + [0.1, 1e5])
         fc = s.loguniform(5.0, 3e4)
@@ -1603,6 +1857,28 @@ def random_cases(tier, rng):
             yield {**base, "op": "visc", "T": T, "T2": min(109.99, T + s.loguniform(1e-5, 30.0))}
         elif kind == "waterseq":
             yield random_water_sequence(s, i)
+        elif kind == "couplevec":
+            Rb = R * 1e6
+            n = s.choice([1, 2, 2, 3, 4, 5, 8])
+            shape = s.choice(["same", "sweep", "mixed", "mixed"])
+            th0 = s.choice([0.0, math.pi / 2, math.pi, s.uniform(-math.pi, math.pi), s.uniform(-math.pi, math.pi)])
+
+            def sep():
+                # (near contact the series needs ~1/sqrt(gap) summands per pair and call: that end belongs to `couple`)
+                return s.choice([2.0 + s.loguniform(5e-3, 0.2), s.loguniform(2.01, 200.0), s.loguniform(2.01, 200.0), s.loguniform(2.01, 200.0),
+                                 s.loguniform(2.01, 20.0), 200.0, s.loguniform(200.0, 1e4)])
+
+            if shape == "same":
+                sr = sep()
+                pairs = [[sr * Rb * math.cos(th0), sr * Rb * math.sin(th0)]] * n
+            elif shape == "sweep":
+                pairs = [[sr * Rb * math.cos(th0), sr * Rb * math.sin(th0)] for sr in sorted(sep() for _ in range(n))]
+            else:
+                pairs = []
+                for _ in range(n):
+                    sr, th = sep(), s.choice([th0, s.uniform(-math.pi, math.pi)])
+                    pairs.append([sr * Rb * math.cos(th), sr * Rb * math.sin(th)])
+            yield couplevec_case("random", Rb, pairs, s.chance(0.5), s.chance(0.5), s.choice(["array", "array", "list", "scalar"]), subseed=i)
         elif kind == "stimson2":
             R2 = s.choice([s.loguniform(0.1e-6, 4e-6)] * 5 + [0.1e-6, 4e-6, R])
             # the series needs ~1/sqrt(gap) summands: gaps below 2e-3 of the summed radii are left to the corpus and the grid
@@ -1629,6 +1905,21 @@ def random_cases(tier, rng):
                 extra = {"T": s.choice([1 / 78125.0, s.loguniform(1e-6, 1e-2)])}
             if kind == "passivealias":
                 extra = {"fs": s.choice([78125.0, s.loguniform(1e3, 1e6)]), "n": s.choice([0, 1, 10, s.randint(0, 30)])}
+            if kind == "fixeddiode":
+                # which diode parameter is fixed, and at what: the ends of the allowed ranges are values like any other
+                a_fix = s.choice([0.0, 1.0, s.random(), s.random(), s.loguniform(1e-12, 1.0)])
+                fd_fix = s.choice([s.loguniform(1.0, 4e4), s.loguniform(1e3, 4e4), 14000.0, 1.0])
+                fix = s.choice([[None, a_fix], [None, a_fix], [fd_fix, None], [fd_fix, a_fix], [fd_fix, a_fix], [None, None]])
+                calls = [[s.loguniform(1e3, 4e4), s.choice([0.0, 1.0, s.random(), s.random()])] for _ in range(s.randint(1, 3))]
+                if s.chance(0.6):
+                    calls.append(list(calls[0]))  # … and once more what was asked first
+                fs_ = s.choice([78125.0, 500.0, s.loguniform(1e2, 1e6)])
+                steps = s.choice([[], [], [["B", s.loguniform(1e-6, 1e-2)]], [["A", fs_, s.choice([0, 1, 3, 10])]],
+                                  [["B", 1 / fs_], ["A", fs_, s.randint(0, 20)]], [["A", fs_, s.randint(0, 10)], ["B", s.uniform(0.05, 1.0) / fs_]]])
+                if steps:
+                    f = s.choice([f, s.uniform(0.0, 0.5) * fs_, max(0.1, 0.5 * fs_ - 1.0)])
+                yield fixeddiode_case("random", cfg, f, fc, D, fix, calls, steps, subseed=i)
+                continue
             if kind == "setdrag":
                 steps = s.choice([[], [], [["B", s.loguniform(1e-6, 1e-2)]], [["A", s.choice([78125.0, s.loguniform(1e3, 1e6)]), s.choice([0, 1, 3, 10])]],
                                   [["B", 1 / 500.0], ["A", 500.0, s.randint(0, 20)]]])
@@ -1722,6 +2013,8 @@ def extra_coverage(results):
     hydro_branch = {"bulk": 0, "surface": 0}
     fdec = {}
     chains, setdrag, unequal = {}, {}, {}
+    fixedd = {"cases": 0, "calls": 0, "alpha_fixed_at_0": 0, "alpha_fixed_at_1": 0, "alpha_fixed_inside": 0, "f_diode_fixed": 0, "both_fixed": 0, "behind_wrappers": 0}
+    cvec = {"cases": 0, "pairs": 0, "max_pairs": 0, "same_geometry_repeated": 0, "array": 0, "list": 0, "scalar": 0}
     wseq = {"sequences": 0, "queries": 0, "array_queries": 0, "invalid_queries": 0, "same_T_c_new_p": 0, "same_c_p_new_T": 0, "same_T_p_new_c": 0}
     for r in results:
         c = r["case"]
@@ -1732,6 +2025,21 @@ def extra_coverage(results):
             cf = c["cfg"]
             key = ("hydro" if cf["hydrodynamically_correct"] else "lorentzian") + ("+surface" if cf["distance_to_surface"] is not None else "+bulk")
             setdrag[key] = setdrag.get(key, 0) + 1
+        if c["op"] == "fixeddiode":
+            fd_, a_ = c["fix"]
+            fixedd["cases"] += 1
+            fixedd["calls"] += len(c["calls"])
+            fixedd["f_diode_fixed"] += fd_ is not None
+            fixedd["both_fixed"] += fd_ is not None and a_ is not None
+            fixedd["behind_wrappers"] += bool(c["steps"])
+            if a_ is not None:
+                fixedd["alpha_fixed_at_0" if a_ == 0 else "alpha_fixed_at_1" if a_ == 1 else "alpha_fixed_inside"] += 1
+        if c["op"] == "couplevec":
+            cvec["cases"] += 1
+            cvec["pairs"] += len(c["pairs"])
+            cvec["max_pairs"] = max(cvec["max_pairs"], len(c["pairs"]))
+            cvec["same_geometry_repeated"] += len(c["pairs"]) > 1 and all(p == c["pairs"][0] for p in c["pairs"])
+            cvec[c["form"]] += 1
         if c["op"] == "stimson2":
             ratio = max(c["R1"], c["R2"]) / min(c["R1"], c["R2"])
             key = "equal" if ratio == 1 else "ratio<2" if ratio < 2 else "ratio 2-10" if ratio < 10 else "ratio>=10"
@@ -1763,6 +2071,7 @@ def extra_coverage(results):
             d = int(math.floor(math.log10(c["f"])))
             fdec[str(d)] = fdec.get(str(d), 0) + 1
     return {"case_kinds": kinds, "error_kinds": errs, "explore_only_observables": outside, "wall_ratio_histogram": near_wall,
-            "hydro_branches": hydro_branch, "frequency_decades": fdec, "wrapper_chain_shapes": chains, "set_drag_models": setdrag, "stimson_radius_ratios": unequal, "water_query_sequences": wseq, "tolerance": "rel 1e-9 model vs implementation (complex drag: 1e-9 of the modulus)",
+            "hydro_branches": hydro_branch, "frequency_decades": fdec, "wrapper_chain_shapes": chains, "set_drag_models": setdrag, "stimson_radius_ratios": unequal,
+            "fixed_diode_filter": fixedd, "coupling_2d_arrays": cvec, "water_query_sequences": wseq, "tolerance": "rel 1e-9 model vs implementation (complex drag: 1e-9 of the modulus)",
             "exhaustive": False,
             "exhaustive_note": "continuous domains: fixed dense grids + seeded random points; nothing is enumerated exhaustively"}
